@@ -380,6 +380,132 @@ func runStorm(cid string, in stormIn) *recorder {
 	return r
 }
 
+// ---- cancelled opens --------------------------------------------------------
+
+type opencIn struct {
+	Mode    string `json:"mode"`    // "openc"
+	Variant string `json:"variant"` // "pre": context already cancelled; "stall": cancelled while every write buffer is in flight
+	Reps    int    `json:"reps"`
+	Bufs    int    `json:"bufs"`
+	Seed    int64  `json:"seed"`
+}
+
+// normalUse opens a stream, moves n bytes over it and closes it; it reports whether all of that worked.
+func normalUse(p *pair, n int) bool {
+	a, b, err := openPairWatch(p)
+	if err != nil {
+		return false
+	}
+	res := watchdog(waitAfterRel, func() callResult {
+		go func() { a.Write(make([]byte, n)); a.CloseWrite() }()
+		got := 0
+		buf := make([]byte, 16)
+		for {
+			k, err := b.Read(buf)
+			got += k
+			if err != nil {
+				break
+			}
+		}
+		a.Close()
+		b.Close()
+		return callResult{n: got}
+	})
+	return !res.hung && res.n == n
+}
+
+// runOpenCancel: OpenStream calls that fail before their open message is queued, then normal use.
+// Only public operations; nothing is closed explicitly before the End record.
+func runOpenCancel(cid string, in opencIn) *recorder {
+	r := newRecorder(cid)
+	r.add(map[string]any{"ev": "Begin", "begin": true, "mode": "storm", "w": 65535, "b": 64, "in": in})
+	p := newPair(nil, false, 0, 65535, 64, in.Bufs, 0)
+	defer p.shutdown()
+	canceled, other, blocked := 0, 0, 0
+	okBefore := normalUse(p, 40)
+	if in.Variant == "pre" {
+		// an acceptor that takes whatever gets through (a cancelled open may still queue open + close)
+		actx, acancel := context.WithCancel(context.Background())
+		go func() {
+			for {
+				st, err := p.mux[1].AcceptStream(actx)
+				if err != nil {
+					return
+				}
+				st.Close()
+			}
+		}()
+		for i := 0; i < in.Reps && !isClosedChan(p.mux[0].Closed()); i++ {
+			ctx, cancel := context.WithCancel(context.Background())
+			cancel()
+			res := watchdog(waitAfterRel, func() callResult {
+				st, err := p.mux[0].OpenStream(ctx)
+				if st != nil {
+					st.Close()
+				}
+				return callResult{err: err}
+			})
+			if kindOf(res) == "canceled" {
+				canceled++
+			} else {
+				other++
+			}
+		}
+		time.Sleep(2 * time.Millisecond)
+		acancel()
+	} else {
+		a, _, err := openPairWatch(p)
+		for i := 0; i < in.Reps && err == nil && !isClosedChan(p.mux[0].Closed()); i++ {
+			// stall the carrier towards the peer and put every write buffer in flight
+			d := p.l.dir[0]
+			d.mu.Lock()
+			d.gated, d.capacity = true, 1
+			d.mu.Unlock()
+			for j := 0; j < in.Bufs; j++ {
+				a.Write([]byte{byte(j)})
+			}
+			time.Sleep(time.Millisecond)
+			ctx, cancel := context.WithCancel(context.Background())
+			done := make(chan error, 1)
+			go func() { _, e := p.mux[0].OpenStream(ctx); done <- e }()
+			select {
+			case e := <-done:
+				if errKind(e) == "canceled" {
+					canceled++
+				} else {
+					other++
+				}
+			case <-time.After(10 * time.Millisecond):
+				blocked++
+				cancel()
+				select {
+				case e := <-done:
+					if errKind(e) == "canceled" {
+						canceled++
+					} else {
+						other++
+					}
+				case <-time.After(waitAfterRel):
+					other++
+				}
+			}
+			cancel()
+			// release the carrier
+			d.mu.Lock()
+			d.capacity = 0
+			d.mu.Unlock()
+			d.setGated(false)
+			time.Sleep(2 * time.Millisecond)
+		}
+	}
+	okAfter := normalUse(p, 40)
+	time.Sleep(2 * time.Millisecond)
+	r.add(map[string]any{"ev": "OpenCancel", "variant": in.Variant, "reps": in.Reps, "canceled": canceled, "other": other,
+		"blockedFirst": blocked, "normalBefore": okBefore, "normalAfter": okAfter, "t": nowMs()})
+	r.add(p.endRecord(false))
+	return r
+}
+
 // ---- random gated scripts ---------------------------------------------------
 
 func absInt(v int) int {
@@ -401,6 +527,7 @@ func randomScript(rng *rand.Rand) scriptIn {
 	inject := rng.Intn(6) == 0
 	n := 25 + rng.Intn(40)
 	nopen := [2]int{}
+	nopenc := [2]int{}
 	ids := func(e int) []int {
 		var out []int
 		for i := 0; i < nopen[0]; i++ {
@@ -428,7 +555,10 @@ func randomScript(rng *rand.Rand) scriptIn {
 		case x < 8 && nopen[e] < 4:
 			in.Steps = append(in.Steps, step{Op: "open", E: e})
 			nopen[e]++
-		case x < 16:
+		case x < 10 && nopenc[e] < 3: // each may consume an identifier; recorded identifiers must stay <= 16
+			in.Steps = append(in.Steps, step{Op: "openc", E: e})
+			nopenc[e]++
+		case x < 17:
 			in.Steps = append(in.Steps, step{Op: "accept", E: e})
 		case x < 22:
 			in.Steps = append(in.Steps, step{Op: "openret", E: e, S: pick()})
